@@ -7,5 +7,5 @@ MCShapes == CustomShapes
 MCProps == {"C17"}
 MCScript == <<"LoadRaw", "FreshObj", "CopyFrom">>
 ASSUME PrintT("SHAPES " \o ToJson(MCShapes))
-INSTANCE Session WITH Shapes <- MCShapes, Script <- MCScript, Deep <- MCDeep, Props <- MCProps, ObjMode <- "all", RawMode <- "corrupt"
+INSTANCE Session WITH Shapes <- MCShapes, Script <- MCScript, Deep <- MCDeep, Props <- MCProps, ObjMode <- "all", RawMode <- "corrupt", EmptyMode <- "plain"
 ====
